@@ -114,6 +114,31 @@ def expand(task):
   return statespace.expand_paths(system(task['cfg']), task['paths'])
 
 
+def large_shard(task):
+  """One long history on a study with more than a hundred trials against the reference model (listing, hand-out, optimal trials,
+  metadata, deletion on a study whose ids have one, two and three digits)."""
+  cfg = {'backends': [task['backend']], 'max_trials': 400, 'max_meas': 1, 'max_ops': 4, 'max_id': 125}
+  sysm = system(cfg)
+  sysm.reset()
+  path = [('CreateStudy', 's')]
+  for i in range(1, 106):
+    path.append(('CreateTrial', 's', 'succeeded' if i % 3 else 'requested', round(0.001 * i, 6)))
+  path += [('ListTrials', 's'), ('SuggestTrials', 's', 'a', 2), ('ListOptimalTrials', 's'), ('SuggestTrials', 's', 'b', 40), ('ListTrials', 's'),
+           ('CompleteTrial', 's', 3, 'final'), ('DeleteTrial', 's', 50), ('SuggestTrials', 's', 'a', 3), ('UpdateMetadata', 's', ((None, '', 'k', 'v'), (104, '', 'k', 'v'))),
+           ('GetTrial', 's', 104), ('ListTrials', 's')]
+  vios, done = [], 0
+  for a in path:
+    for v in sysm.apply(a):
+      v = dict(v)
+      v['sig'] += '|large-study'
+      v['case'] = {'large': True, 'backend': task['backend']}
+      vios.append(v)
+    done += 1
+    if vios:
+      break
+  return {'n': done, 'violations': vios[:5]}
+
+
 def run(ctx):
   if ctx.quick:
     plans = [({'backends': ['ram'], 'max_trials': 2, 'max_meas': 1, 'max_ops': 2, 'max_id': 3, 'modes': ('final', 'none', 'infeasible', 'infeasible+final')}, 5),
@@ -156,10 +181,17 @@ def run(ctx):
     c['cfg'] = cfg
     cov['runs'].append(c)
   cov['bound'] = 'BFS to the stated depth per backend inside structural bounds (max_trials, max_meas, max_ops, max_id); see runs[]'
+  for r in ctx.pmap('large_shard', [{'backend': 'ram'}, {'backend': 'sqlmem'}]):
+    cov['transitions'] += r['n']
+    cov['traces_validated_against_impl'] += r['n']
+    cov['large_study_steps'] = cov.get('large_study_steps', 0) + r['n']
+    ctx.extend(r['violations'])
   return cov
 
 
 def replay(case, ctx):
+  if case.get('large'):
+    return large_shard({'backend': case['backend']})['violations']
   sysm = system(case['cfg'])
   sysm.reset()
   for a in case['path']:
